@@ -89,6 +89,14 @@ inductive Op where
   | getRetention (b k vid : Bytes)
   | putLegalHold (b k vid : Bytes) (on : Bool)
   | getLegalHold (b k vid : Bytes)
+  -- multipart
+  | createUpload (b k : Bytes) (p : PutSpec) (newId : Bytes)
+  | uploadPart (b k id : Bytes) (num : Nat) (data : Data) (etag : Bytes)
+  | uploadPartCopy (b k id : Bytes) (num : Nat) (sb sk svid : Bytes) (range : Option (Nat × Nat)) (etag : Bytes)
+  | listParts (b k id : Bytes)
+  | listUploads (b : Bytes)
+  | completeUpload (b k id : Bytes) (parts : List (Nat × Bytes)) (mpEtag : Bytes) (newVid : Bytes)
+  | abortUpload (b k id : Bytes)
   deriving Repr, DecidableEq
 
 structure Req where
@@ -191,12 +199,16 @@ def findVer (vs : List Ver) (vid : Bytes) : Option Ver := vs.find? (·.vid == re
 
 def actBypass := Bytes.ofString "s3:BypassGovernanceRetention"
 
+/-- does the bucket policy give the caller s3:BypassGovernanceRetention on this object? -/
+def bypassGranted (b : Bucket) (w : Who) (k : Bytes) : Bool :=
+  match b.policy with
+  | some p => policyAllows p w.access actBypass (resourceOf b.name k)
+  | none => false
+
 /-- is this version protected against the caller at time `now`? (auth.CheckObjectAccess for one
 version) -/
 def verLocked (b : Bucket) (w : Who) (now : Int) (bypass : Bool) (k : Bytes) (v : Ver) : Bool :=
-  let bypassOk := bypass && (match b.policy with
-    | some p => policyAllows p w.access actBypass (resourceOf b.name k)
-    | none => false)
+  let bypassOk := bypass && bypassGranted b w k
   let retentionLocks := match v.retention with
     | some r => decide (now < r.untilT) && (match r.mode with
         | .compliance => true
@@ -214,9 +226,7 @@ def defaultLocks (b : Bucket) (w : Who) (now : Int) (bypass : Bool) (k : Bytes) 
       decide (now < cfg.createdAt + (cfg.defDays : Int) * 86400) &&
         (match m with
          | .compliance => true
-         | .governance => !(bypass && (match b.policy with
-             | some p => policyAllows p w.access actBypass (resourceOf b.name k)
-             | none => false)))
+         | .governance => !(bypass && bypassGranted b w k))
     | none => false
   | none => false
 
@@ -228,8 +238,8 @@ def lockCheck (b : Bucket) (w : Who) (now : Int) (bypass : Bool) (k vid : Bytes)
     if !cfg.enabled then none else
     let target := if vid.isEmpty then (b.versions k).head? else findVer (b.versions k) vid
     match target with
-    | none => none
-    | some v => if verLocked b w now bypass k v || defaultLocks b w now bypass k then some "AccessDenied" else none
+    | none => if !vid.isEmpty && !(b.versions k).isEmpty then some "InvalidArgument" else none
+    | some v => if verLocked b w now bypass k v || defaultLocks b w now bypass k then some "InvalidRequest" else none
 
 def verFields (reqV : Bytes) (v : Ver) (withBody : Bool) : List (String × String) :=
   (if withBody then [("body", showData v.data)] else []) ++
@@ -251,6 +261,13 @@ def putVersions (cfg : Cfg) (b : Bucket) (vs : List Ver) (p : PutSpec) (newVid :
 
 def evt (name : String) (b k : Bytes) : String := s!"{name} {hx b} {hx k}"
 
+/-- A delete marker is the file of the version it replaces, flagged: it keeps that version's
+lock attributes (legal hold, retention). -/
+def markerOf (vs : List Ver) (vid : Bytes) : Ver :=
+  match vs with
+  | v :: _ => { vid := vid, marker := true, hold := v.hold, holdSet := v.holdSet, retention := v.retention }
+  | [] => { vid := vid, marker := true }
+
 /-- posix.DeleteObject on one key; returns the new bucket and the answer (`deletemarker`, `vid`) -/
 def deleteOne (cfg : Cfg) (bk : Bucket) (k vid newVid : Bytes) : Bucket × Resp :=
   let vs := bk.versions k
@@ -258,12 +275,12 @@ def deleteOne (cfg : Cfg) (bk : Bucket) (k vid newVid : Bytes) : Bucket × Resp 
     if vid.isEmpty then
       if vs.isEmpty then (bk, okR [("deletemarker", "false"), ("vid", hx [])])
       else if bk.versioning == .enabled then
-        (bk.setVersions k ({ vid := newVid, marker := true } :: vs), okR [("deletemarker", "true"), ("vid", hx newVid)])
+        (bk.setVersions k (markerOf vs newVid :: vs), okR [("deletemarker", "true"), ("vid", hx newVid)])
       else
         -- suspended: the current version becomes the null delete marker; a current null version is
         -- replaced by it, a current version with an id is archived first (an archived null
         -- version, if any, is left where it is: suspended-state details are not pinned by C09)
-        (bk.setVersions k ({ vid := [], marker := true } :: (match vs with
+        (bk.setVersions k (markerOf vs [] :: (match vs with
             | v :: rest => if v.vid.isEmpty then rest else v :: rest
             | [] => [])),
          okR [("deletemarker", "true"), ("vid", hx nullVid)])
@@ -274,7 +291,47 @@ def deleteOne (cfg : Cfg) (bk : Bucket) (k vid newVid : Bytes) : Bucket × Resp 
   else
     (bk.setVersions k [], okR [("deletemarker", "false"), ("vid", hx [])])
 
+/-- the object a completed upload produces: the chosen parts concatenated in listed order, the
+multipart ETag (supplied by the environment), the metadata given at initiation -/
+def assembled (up : Upload) (chosen : List Part) (mpEtag : Bytes) : PutSpec :=
+  { data := chosen.flatMap (fun (p : Part) => p.data), etag := mpEtag, ctype := up.ctype, umeta := up.umeta, hdrs := up.hdrs, tags := up.tags }
+
+/-- posix.CompleteMultipartUpload on the version stack: a new version when versioning is
+enabled, otherwise the current version is replaced (the code has no suspended-state handling) -/
+def completeVersions (cfg : Cfg) (b : Bucket) (vs : List Ver) (p : PutSpec) (newVid : Bytes) : List Ver × Bytes :=
+  if cfg.versioning && b.versioning == .enabled then (mkVer p newVid :: vs, newVid)
+  else (mkVer p [] :: (if cfg.versioning && b.versioning == .suspended then vs.drop 1 else []), [])
+
 def actListVersions := Bytes.ofString "s3:ListBucketVersions"
+def actListParts := Bytes.ofString "s3:ListMultipartUploadParts"
+def actListUploads := Bytes.ofString "s3:ListBucketMultipartUploads"
+def actAbortUpload := Bytes.ofString "s3:AbortMultipartUpload"
+
+def minPartSize : Nat := 5 * 1024 * 1024
+def openEnd : Nat := 4611686018427387904
+
+def insertPart (ps : List Part) (p : Part) : List Part :=
+  match ps with
+  | [] => [p]
+  | q :: qs => if q.num == p.num then p :: qs else if p.num < q.num then p :: q :: qs else q :: insertPart qs p
+
+/-- posix.CompleteMultipartUpload's validation loop: part numbers ≥ 1 and strictly ascending,
+each listed part uploaded, every part but the last at least `minPartSize` bytes, ETag equal to
+the stored one. Returns the chosen parts in order. -/
+def validateParts (stored : List Part) : List (Nat × Bytes) → Nat → Except String (List Part)
+  | [], _ => .ok []
+  | (num, etag) :: rest, prev =>
+    if num < 1 then .error "InvalidArgument" else
+    if num ≤ prev then .error "InvalidPartOrder" else
+    match stored.find? (·.num == num) with
+    | none => .error "InvalidPart"
+    | some p =>
+      if !rest.isEmpty && p.data.size < minPartSize then .error "EntityTooSmall" else
+      if p.etag != etag then .error "InvalidPart" else
+      match validateParts stored rest num with
+      | .error e => .error e
+      | .ok ps => .ok (p :: ps)
+
 def actPutLockCfg := Bytes.ofString "s3:PutBucketObjectLockConfiguration"
 def actGetLockCfg := Bytes.ofString "s3:GetBucketObjectLockConfiguration"
 def actPutRetention := Bytes.ofString "s3:PutObjectRetention"
@@ -321,7 +378,7 @@ def handle (cfg : Cfg) (s : State) (w : Who) (now : Int) : Op → State × Resp
   | .deleteBucket b => withBucket s b fun bk =>
     guarded (verifyAccess cfg bk w .write actDeleteBucket []) s fun _ =>
     if !bk.objects.isEmpty || !bk.uploads.isEmpty then
-      (s, errR (if cfg.versioning && bk.objects.any (fun (_, vs) => vs.length > 1 || vs.any (·.marker)) then "VersionedBucketNotEmpty" else "BucketNotEmpty"))
+      (s, errR "BucketNotEmpty")
     else (removeBucket s b, okR)
   | .headBucket b => withBucket s b fun bk =>
     guarded (verifyAccess cfg bk w .read actListBucket []) s fun _ => (s, okR)
@@ -436,6 +493,7 @@ def handle (cfg : Cfg) (s : State) (w : Who) (now : Int) : Op → State × Resp
         | none => some "NoSuchBucket"
         | some sbk => verifyAccess cfg sbk w .read actGetObject sk
     guarded chk s fun _ =>
+    guarded (lockCheck bk w now true k []) s fun _ =>
     match findBucket s sb with
     | none => (s, errR "NoSuchBucket")
     | some sbk =>
@@ -453,7 +511,6 @@ def handle (cfg : Cfg) (s : State) (w : Who) (now : Int) : Op → State × Resp
       | .error e => (s, errR e)
       | .ok src =>
         if sb == b && sk == k && (svid.isEmpty || (sbk.versions sk).head?.map (·.vid) == some (reqVid svid)) && replace.isNone then (s, errR "InvalidRequest") else
-        guarded (lockCheck bk w now true k []) s fun _ =>
         let spec : PutSpec := match replace with
           | some r => { r with data := src.data, etag := src.etag, tags := if r.tags.isSome then r.tags else src.tags }
           | none => { data := src.data, etag := src.etag, ctype := src.ctype, umeta := src.umeta, hdrs := src.hdrs, tags := src.tags }
@@ -499,9 +556,7 @@ def handle (cfg : Cfg) (s : State) (w : Who) (now : Int) : Op → State × Resp
     guarded (verifyAccess cfg bk w .write actPutRetention k) s fun _ =>
     if decide (r.untilT < now) then (s, errR "InvalidRequest") else
     withLockedVersion cfg s bk k vid fun v rest pre =>
-      let bypassOk := bypass && (match bk.policy with
-        | some p => policyAllows p w.access actBypass (resourceOf bk.name k)
-        | none => false)
+      let bypassOk := bypass && bypassGranted bk w k
       match v.retention with
       | some old =>
         if old.mode == .compliance || !bypassOk then (s, errR "MethodNotAllowed")
@@ -521,6 +576,74 @@ def handle (cfg : Cfg) (s : State) (w : Who) (now : Int) : Op → State × Resp
     guarded (verifyAccess cfg bk w .read actGetLegalHold k) s fun _ =>
     withLockedVersion cfg s bk k vid fun v _ _ =>
       if !v.holdSet then (s, errR "NoSuchObjectLockConfiguration") else (s, okR [("hold", if v.hold then "ON" else "OFF")])
+  | .createUpload b k p newId => withBucket s b fun bk =>
+    guarded (verifyAccess cfg bk w .write actPutObject k) s fun _ =>
+    let up : Upload := { key := k, id := newId, ctype := p.ctype, umeta := p.umeta, hdrs := p.hdrs, tags := p.tags }
+    (setBucket s { bk with uploads := bk.uploads ++ [up] }, okR [("key", hx k), ("uploadid", hx newId)])
+  | .uploadPart b k id num data etag => withBucket s b fun bk =>
+    guarded (verifyAccess cfg bk w .write actPutObject k) s fun _ =>
+    match bk.uploads.find? (fun u => u.key == k && u.id == id) with
+    | none => (s, errR "NoSuchUpload")
+    | some up =>
+      let up' := { up with parts := insertPart up.parts ⟨num, data.norm, etag⟩ }
+      (setBucket s { bk with uploads := bk.uploads.map fun u => if u.key == k && u.id == id then up' else u }, okR [("etag", hx etag)])
+  | .uploadPartCopy b k id num sb sk svid range etag => withBucket s b fun bk =>
+    let chk : Option String :=
+      if cfg.readonly then some "AccessDenied" else
+      if w.isRoot || w.role == .admin then none else
+      match verifyAccess cfg bk w .write actPutObject k with
+      | some e => some e
+      | none =>
+        match findBucket s sb with
+        | none => some "NoSuchBucket"
+        | some sbk => verifyAccess cfg sbk w .read actGetObject sk
+    guarded chk s fun _ =>
+    match bk.uploads.find? (fun u => u.key == k && u.id == id) with
+    | none => (s, errR "NoSuchUpload")
+    | some up =>
+      match findBucket s sb with
+      | none => (s, errR "NoSuchBucket")
+      | some sbk =>
+        let src : Option Ver := if svid.isEmpty then currentVer (sbk.versions sk) else (findVer (sbk.versions sk) svid).filter (!·.marker)
+        match src with
+        | none => (s, errR "NoSuchKey")
+        | some v =>
+          let size := v.data.size
+          let sliced : Except String Data := match range with
+            | none => .ok v.data
+            | some (a, e0) =>
+              -- `e0 = openEnd` stands for the open form `bytes=a-`
+              let e := if e0 == openEnd then size - 1 else e0
+              if a ≥ size || e ≥ size || e < a then .error "InvalidArgument" else .ok (v.data.slice a (e - a + 1))
+          match sliced with
+          | .error e => (s, errR e)
+          | .ok d =>
+            let up' := { up with parts := insertPart up.parts ⟨num, d.norm, etag⟩ }
+            (setBucket s { bk with uploads := bk.uploads.map fun u => if u.key == k && u.id == id then up' else u }, okR [("etag", hx etag)])
+  | .listParts b k id => withBucket s b fun bk =>
+    guarded (verifyAccess cfg bk w .read actListParts k) s fun _ =>
+    match bk.uploads.find? (fun u => u.key == k && u.id == id) with
+    | none => (s, errR "NoSuchUpload")
+    | some up => (s, okR [("parts", ",".intercalate (up.parts.map fun p => s!"{p.num}:{p.data.size}:{hx p.etag}"))])
+  | .listUploads b => withBucket s b fun bk =>
+    guarded (verifyAccess cfg bk w .read actListUploads []) s fun _ =>
+    (s, okR [("uploads", ",".intercalate (bk.uploads.map fun u => hx u.key ++ ":" ++ hx u.id))])
+  | .completeUpload b k id parts mpEtag newVid => withBucket s b fun bk =>
+    guarded (verifyAccess cfg bk w .write actPutObject k) s fun _ =>
+    match bk.uploads.find? (fun u => u.key == k && u.id == id) with
+    | none => (s, errR "NoSuchUpload")
+    | some up =>
+      match validateParts up.parts parts 0 with
+      | .error e => (s, errR e)
+      | .ok chosen =>
+        let (vs, vid) := completeVersions cfg bk (bk.versions k) (assembled up chosen mpEtag) newVid
+        let bk' := { (bk.setVersions k vs) with uploads := bk.uploads.filter fun u => !(u.key == k && u.id == id) }
+        (setBucket s bk', okR [("etag", hx mpEtag), ("vid", hx vid)] [evt "s3:ObjectCreated:CompleteMultipartUpload" b k])
+  | .abortUpload b k id => withBucket s b fun bk =>
+    guarded (verifyAccess cfg bk w .write actAbortUpload k) s fun _ =>
+    match bk.uploads.find? (fun u => u.key == k && u.id == id) with
+    | none => (s, errR "NoSuchUpload")
+    | some _ => (setBucket s { bk with uploads := bk.uploads.filter fun u => !(u.key == k && u.id == id) }, okR)
 
 /-- One request: authentication first; a request without a valid SigV4 proof for an existing
 account is refused before anything else happens. -/
